@@ -57,6 +57,9 @@ func runC14(c *core.Ctx) {
 		return
 	}
 	t, e := w.T, w.E
+	if c.Case%50 == 0 {
+		asMisuseProbe(c, e)
+	}
 	pos, neg := 0, 0
 	walk := stdWalk(e)
 	fullyWalkable := len(walk) == len(w.Vis)
@@ -195,6 +198,20 @@ func runC14(c *core.Ctx) {
 		c.Nontrivial(t.Sig())
 	}
 	c.Sample(sample(t, map[string]interface{}{"refs": len(w.Refs), "std_walkable_layers": len(walk), "visible_layers": len(w.Vis), "joint_positive": pos, "joint_negative": neg}))
+}
+
+// asMisuseProbe: on API misuse (nil target, non-pointer target, pointer to a non-error
+// non-interface type) the standard errors.As panics; so must the drop-in replacement.
+func asMisuseProbe(c *core.Ctx, e error) {
+	var notErr int
+	for name, target := range map[string]interface{}{"nil": nil, "non-pointer": 3, "pointer-to-non-error": &notErr, "nil-pointer": (*error)(nil)} {
+		sp := core.Try(func() { goErr.As(e, target) })
+		op := core.Try(func() { errors.As(e, target) })
+		c.Count("as-misuse-comparisons", 1)
+		if (sp != nil) != (op != nil) {
+			c.Violate("as-misuse/"+name, "As differs from the standard errors.As on API misuse (one panics, the other does not)", fmt.Sprintf("std panic: %v\nours: %v", sp, op))
+		}
+	}
 }
 
 func sameErr(a, b error) bool {
